@@ -160,7 +160,7 @@ def run(ctx: Ctx) -> None:
     once_rule(ctx)
     from ..siblingrule import sibling_rule
     from ..wiring import wiring_rule
-    sibling_rule(ctx, "R09.sib")
+    sibling_rule(ctx, "R09.sib", mode="accounting")
     wiring_rule(ctx, "R09.wire", which=("data",))
 
 
